@@ -1,7 +1,10 @@
 import Dasp.Driver.Loop
+import Dasp.Driver.ConvFloat
 open Dasp.Driver
 
--- stub: replaced when property C02 is wired in
 def main : IO Unit := runDriver fun
+  | "i2f" :: rest => i2fLine rest
+  | "f2i" :: rest => f2iLine rest
+  | "f2f" :: rest => f2fLine rest
   | [] => ""
   | _ => "bad-op"
